@@ -13,6 +13,10 @@ Import ListNotations.
    [reach E cf s0 s]: s is obtained from s0 by any sequence of step / solve /
    reload / tag / enable / disable / clear_log, failing ones included. *)
 
+(* Targets may carry a duck-typed `transform` hook (abs, square, scaling, one-sided clipping): it
+   enters the residual - hence tol_met and the penalty - but never the logged value: [truthful]
+   says r_targets = the RAW result of the user's function, r_tolmet / r_pen are computed from the
+   transformed residual. *)
 (* Every row ever appended is truthful, over all operation sequences, failing
    operations included (an exception while add_point_to_log evaluates the point
    leaves the log untouched: the knobs are recorded after the evaluation). *)
@@ -104,7 +108,7 @@ Definition xenv : env :=
         (fun m y => Some (map (fun _ => 1%Qc) m)) (fun j _ _ _ _ => j) (fun x => x) N.eqb.
 Definition xcfg : cfg Qc :=
   mkCfg [1%Qc] [Some (Some (Q2Qc (-3)), Some (Q2Qc 3))] [1%Qc] [None] [0%N] [0%N]
-        [Q2Qc 2; Q2Qc 2] [Q2Qc (1 # 10); Q2Qc (1 # 10)] [1%Qc; 1%Qc] [0%N; 0%N] 3 true true true [].
+        [Q2Qc 2; Q2Qc 2] [Q2Qc (1 # 10); Q2Qc (1 # 10)] [1%Qc; 1%Qc] [0%N; 0%N] 3 true true true [] [].
 
 (* a constructed optimizer, a step with take_best, a reload and a failing solve:
    a reachable state with 10 rows *)
